@@ -162,12 +162,27 @@ impl Session {
     pub fn drain(&mut self) -> Vec<Ev> {
         let mut out = vec![];
         let mut used = 0usize;
+        let mut polls = 0usize;
         loop {
             match self.step(self.quantum) {
                 None => {
                     used += self.quantum;
                     if used > self.budget {
                         out.push(Ev::Budget);
+                        return out;
+                    }
+                }
+                Some(Ev::Inkey) => {
+                    // a keyboard poll: no key is ever pressed in these sessions (a program that waits for
+                    // a key runs into the budget)
+                    polls += 1;
+                    used += self.quantum.max(1000);
+                    if polls > 200 || used > self.budget {
+                        out.push(Ev::Budget);
+                        return out;
+                    }
+                    if let Some(p) = self.enter("") {
+                        out.push(p);
                         return out;
                     }
                 }
